@@ -138,7 +138,13 @@ DispatchInit == \E k \in 1..Len(DispatchCases), fault \in {NoFault, <<1, "err">>
 ShapeInit == \E s \in Shapes, mode \in LeafModes :
           LET L == Size(s) IN
           \E script \in Scripts(L), fault \in Faults(L) : Start(EnvOf(L, script, fault), Build(s, 0, mode), CtxOf(L))
-Init == IF Family = "assign" THEN AssignInit ELSE IF Family = "dispatch" THEN DispatchInit ELSE ShapeInit
+\* ---- the same name more than once in one program: every occurrence is its own invocation (no result is remembered) -------
+DupProgs(mode) == LET A == Leaf(1, mode)  B == Leaf(2, mode)  RA == <<"ref", NAME[1]>>  CA == <<"call", NAME[1], <<>>>> IN
+  << <<"bin", "&&", A, A>>, <<"list", <<A, B, A>>>>, <<"stmt", <<RA, CA>>>>, <<"stmt", <<CA, RA, RA>>>>, <<"tern", A, A, A>>,
+     <<"bin", "==", RA, RA>>, <<"call", "G", <<RA, RA>>>>, <<"map", <<<<RA, CA>>, <<B, RA>>>>>>, <<"stmt", <<<<"bin", "=", <<"ref", "x">>, RA>>, RA>>>> >>
+DupInit == \E mode \in LeafModes, k \in 1..9, script \in Scripts(2), fault \in {NoFault} \cup {<<j, "err">> : j \in 1..4} \cup {<<2, "panic">>} :
+             Start(EnvOf(2, script, fault), DupProgs(mode)[k], CtxOf(2))
+Init == IF Family = "assign" THEN AssignInit ELSE IF Family = "dispatch" THEN DispatchInit ELSE IF Family = "dup" THEN DupInit ELSE ShapeInit
 VALToJson(st, v) == IF st = "ok" THEN v ELSE <<"none">>
 CtxToJson(c) == LET names == {nm \in DOMAIN c : TRUE} IN [nm \in names |-> c[nm]]
 Record == [prog |-> prog, ctx0 |-> CtxToJson(ctx0), handlers |-> [h \in DOMAIN env.handlers |-> env.handlers[h].ret],
